@@ -231,18 +231,21 @@ fn inverse_case(st: &mut St, acc: &mut Acc, s: &str) {
 
 fn reader_symbol_case(st: &mut St, acc: &mut Acc, spelled: &str) {
     acc.evals += 1;
-    let text = format!("(list (eq? '{} (string->symbol (symbol->string '{}))) (eq? '{} (car '({}))))", spelled, spelled, spelled, spelled);
+    // the symbol the reader makes of the token, the symbol of that name made by string->symbol, and the symbol made from
+    // the token's own characters are one object (the reader does no case folding or other rewriting of a plain token)
+    let same_chars = if spelled.contains('\\') { format!("'{}", spelled) } else { format!("(string->symbol {})", string_literal(spelled)) };
+    let text = format!("(list (eq? '{0} (string->symbol (symbol->string '{0}))) (eq? '{0} (car '({0}))) (eq? '{0} {1}))", spelled, same_chars);
     beat(&text);
     let im = vm(st);
     let got = im.eval_text(&text).show();
-    if got == "(#t #t)" {
+    if got == "(#t #t #t)" {
         acc.nontrivial += 1;
     } else {
         acc.violation(Violation {
             key: format!("reader-symbol:{}", spelled),
             class: Some(if spelled.contains('\\') { "reader-symbol/escaped-spelling".into() } else { "reader-symbol".into() }),
             observed: if got.starts_with("error") { "error".into() } else { "wrong-identity".into() },
-            detail: json!({"session": [text], "expected": "(#t #t)", "observed": got}),
+            detail: json!({"session": [text], "expected": "(#t #t #t)", "observed": got}),
         });
     }
 }
@@ -398,15 +401,49 @@ pub fn run(ctx: &Ctx) -> i32 {
         Acc::merge,
         acc_zero,
     );
+    // longer tokens over the characters the scanner's number / dot / sign rules look at: every token of <= 5 of them
+    let alphabet2: Vec<char> = ".5dx+-/e".chars().collect();
+    let k2 = alphabet2.len() as u64;
+    let n_sym2: u64 = (0..=5).map(|l| k2.pow(l)).sum();
+    let a5 = par_fold(
+        n_sym2,
+        256,
+        || St { im: None, used: 0, uid: 0 },
+        |st, acc, mut i| {
+            let mut len = 0;
+            let mut block = 1u64;
+            while i >= block {
+                i -= block;
+                block *= k2;
+                len += 1;
+            }
+            let mut s = String::new();
+            for _ in 0..len {
+                s.push(alphabet2[(i % k2) as usize]);
+                i /= k2;
+            }
+            if s.is_empty() {
+                return;
+            }
+            let one_symbol = matches!(lex::scan(&s), Ok(t) if t.len() == 1 && matches!(t[0].token_type, TokenType::Symbol | TokenType::Number) && t[0].span == (0, s.len()));
+            if one_symbol && matches!(parse::parse_text(&s), Ok((Cell::Symbol(_), None))) {
+                reader_symbol_case(st, acc, &s);
+            }
+            // and through string->symbol, whatever the reader makes of the spelling
+            inverse_case(st, acc, &s);
+        },
+        Acc::merge,
+        acc_zero,
+    );
     let mut acc = Acc::new();
-    for a in [a1, a_mass, a2, a3, a4] {
+    for a in [a1, a_mass, a2, a3, a4, a5] {
         acc = Acc::merge(acc, a);
     }
     rep.states = Some(acc.evals);
     rep.transitions = Some(acc.evals);
     rep.traces_validated = Some(acc.nontrivial);
     rep.rule = format!(
-        "Every ordered pair of the {} production routes ({:?}) x {} reader-spellable names (plain, peculiar, non-ASCII, and \\x..; spellings of A, 12foo, 'a b', '(') x (same name | a different name | another spelling of the same name | the different name whose characters are this name's escaped spelling) x (same evaluation | two evaluations with the first result dropped | first result kept in a global) x collection schedule between the two productions (none | one forced collection | a collection before every instruction of the second evaluation): (eq? s1 s2) must be #t exactly when the names are equal, the heap audit (symbol table bijection, I1-I4) must pass after every collection. Mass interning: quoted lists of 100 .. 20 000 fresh symbols (around and beyond the free cells of a fresh VM, so that the heap grows while symbols are interned): every element is the interned symbol of its name, before and after a collection. Inverses: (symbol->string (string->symbol s)) = s, re-interning is eq?, filling a string obtained from symbol->string changes neither the name nor the identity, for every one-character string (all {} scalar values), all strings of <= 3 characters over 12 trouble characters and escape-looking texts ({} strings); (string->symbol (symbol->string y)) is y for every token of <= 3 characters over a 26-character alphabet (incl. a backslash, a 2-byte and a 4-byte character) that the reader classifies as a symbol. Non-trivial = a case whose verdict matched.",
+        "Every ordered pair of the {} production routes ({:?}) x {} reader-spellable names (plain, peculiar, non-ASCII, and \\x..; spellings of A, 12foo, 'a b', '(') x (same name | a different name | another spelling of the same name | the different name whose characters are this name's escaped spelling) x (same evaluation | two evaluations with the first result dropped | first result kept in a global) x collection schedule between the two productions (none | one forced collection | a collection before every instruction of the second evaluation): (eq? s1 s2) must be #t exactly when the names are equal, the heap audit (symbol table bijection, I1-I4) must pass after every collection. Mass interning: quoted lists of 100 .. 20 000 fresh symbols (around and beyond the free cells of a fresh VM, so that the heap grows while symbols are interned): every element is the interned symbol of its name, before and after a collection. Inverses: (symbol->string (string->symbol s)) = s, re-interning is eq?, filling a string obtained from symbol->string changes neither the name nor the identity, for every one-character string (all {} scalar values), all strings of <= 3 characters over 12 trouble characters and escape-looking texts ({} strings); (string->symbol (symbol->string y)) is y for every token of <= 3 characters over a 26-character alphabet (incl. a backslash, a 2-byte and a 4-byte character) that the reader classifies as a symbol, and for every token of <= 5 characters over . 5 d x + - / e (the characters the scanner's number, dot and sign rules look at); such a symbol is also the one string->symbol makes from the token's characters. Non-trivial = a case whose verdict matched.",
         nr, ROUTES, nn, 0x110000 - 2048, nt
     );
     rep.assumptions.push("routes that embed the name in program text use a spelling the reader accepts; names the reader cannot spell are produced through string->symbol only".into());
